@@ -143,7 +143,7 @@ func specs() []*spec {
 		},
 		{
 			ID: "C02", Harness: "crdtsim", Level: "exploration",
-			Batch: 10, QuickSecs: 45, ThoroughSecs: 900, PlanTimeoutS: 60,
+			Batch: 1, QuickSecs: 45, ThoroughSecs: 900, PlanTimeoutS: 60,
 			DetSamples: 10, DetThreshold: 0.9,
 			RequiredProbes: []string{"observations", "queue_full", "bursts", "local_order_checked", "convergence_checked", "tracker_handoffs_checked", "datastore_write_failed", "partition", "untrusted_publisher_checked"},
 			Rule:           "plan = 1-4 real CRDT replicas (batching disabled | size-triggered 1-8 | age-triggered 50 ms-5 s, queue 1-64, rebroadcast 1-30 s, trust-all | explicit lists | one untrusted replica, single-writer or contended CIDs) + 8-100 steps: LogPin/LogUnpin, bursts of 2-10 operations in one instant mixing pin and unpin of the same CID (same batch window, queue overflow), partitions, heals, resets, latency skews, datastore write failures placed in the middle of a batch (skip k writes, fail n), Trust/Distrust; then everything is healed and left quiet for 2 x rebroadcast + 30 s. Non-trivial = >=1 operation and >=1 fault fired; distinct = distinct canonical trace digest.",
@@ -162,7 +162,7 @@ func specs() []*spec {
 		},
 		{
 			ID: "C07", Harness: "clustersim", Level: "exploration",
-			Parts: []part{{Harness: "clustersim", Share: 0.6, Batch: 1}, {Harness: "crdtsim", Share: 0.4, Batch: 10}},
+			Parts: []part{{Harness: "clustersim", Share: 0.6, Batch: 1}, {Harness: "crdtsim", Share: 0.4, Batch: 1}},
 			Batch: 1, QuickSecs: 50, ThoroughSecs: 600, PlanTimeoutS: 120,
 			DetSamples: 8, DetThreshold: 0.9,
 			RequiredProbes: []string{"walks", "refusals", "allowed_calls", "trust_changes", "endpoints_found", "untrusted_publisher_checked"},
